@@ -148,14 +148,52 @@ def f_iban_validate(a):
     return guard(lambda: eb(IBAN(dec(a[0]), allow_invalid=True).validate(b(a[1]))))
 
 
+_TWINS = None
+
+
+def _twin_countries(n):
+    """other countries whose BBAN has length n"""
+    global _TWINS
+    if _TWINS is None:
+        _TWINS = {}
+        for cc, row in FACTS["iban_rows"].items():
+            _TWINS.setdefault(row["bban_length"], []).append(cc)
+    return _TWINS.get(n, [])
+
+
+def _touch(o):
+    for n in list(FACTS["components"]) + ["bank", "bic", "bank_name", "bank_short_name", "formatted", "numeric"]:
+        try:
+            getattr(o, n)
+        except Exception:  # noqa: BLE001
+            pass
+    for vb in (False, True):
+        try:
+            o.validate(vb)
+        except Exception:  # noqa: BLE001
+            pass
+
+
 def _lenient_first(text):
-    """the lenient uses of the same text that may precede a strict validation in one process: constructor, is_valid,
-    validate() without the national step - outcomes ignored"""
+    """uses that may precede a strict validation in one process, outcomes ignored: the lenient constructor, is_valid and
+    validate() without the national step on the same text; and IBANs of OTHER countries carrying the very same BBAN string
+    (their BBAN objects are equal as strings), with every accessor read"""
     for f in (lambda: IBAN(text), lambda: IBAN(text, allow_invalid=True).is_valid, lambda: IBAN(text, allow_invalid=True).validate()):
         try:
             f()
         except Exception:  # noqa: BLE001
             pass
+    try:
+        o = IBAN(text, allow_invalid=True)
+        bb = str(o.bban)
+        for cc2 in [c for c in _twin_countries(len(bb)) if c != o.country_code][:3]:
+            try:
+                _touch(IBAN.from_bban(cc2, bb, allow_invalid=True))
+                _touch(BBAN(cc2, bb))
+            except Exception:  # noqa: BLE001
+                pass
+    except Exception:  # noqa: BLE001
+        pass
 
 
 def f_iban_new_after(a):
@@ -166,6 +204,8 @@ def f_iban_new_after(a):
 
 def f_iban_validate_after(a):
     """validate(validate_bban) on an object that was already validated leniently (is_valid, validate())"""
+    _lenient_first(dec(a[0]))
+
     def run():
         o = IBAN(dec(a[0]), allow_invalid=True)
         try:
@@ -175,6 +215,26 @@ def f_iban_validate_after(a):
             pass
         return eb(o.validate(b(a[1])))
     return guard(run)
+
+
+def f_iban_new_inst(a):
+    """the constructor handed an IBAN INSTANCE (built leniently before) instead of a str: same outcome as for the text"""
+    t = dec(a[0])
+    try:
+        inst = IBAN(t)
+    except Exception:  # noqa: BLE001
+        inst = IBAN(t, allow_invalid=True)
+    return guard(lambda: enc(str(IBAN(inst, allow_invalid=b(a[1]), validate_bban=b(a[2])))))
+
+
+def f_bic_new_inst(a):
+    """the constructor handed a BIC INSTANCE (validated in the lenient mode before, if it can be) instead of a str"""
+    t = dec(a[0])
+    try:
+        inst = BIC(t)
+    except Exception:  # noqa: BLE001
+        inst = BIC(t, allow_invalid=True)
+    return guard(lambda: enc(str(BIC(inst, allow_invalid=b(a[1]), enforce_swift_compliance=b(a[2])))))
 
 
 def f_iban_is_valid(a):
@@ -230,6 +290,48 @@ def f_re_bic(a):
     return eb(getattr(rx, a[1])(dec(a[2])) is not None)
 
 
+def _accepts(f):
+    try:
+        r = f()
+        return r is not False
+    except Exception:  # noqa: BLE001
+        return False
+
+
+def f_spec_iban_accept_any(a):
+    """'1' when ANY validating entry point accepts the text - each of them demands at least the ISO 13616 rules
+    (national validation can only reject): constructor with and without validate_bban, validate() with and without it
+    and is_valid on the unvalidated object, the constructor handed an unvalidated instance"""
+    t = dec(a[0])
+    ways = (lambda: IBAN(t), lambda: IBAN(t, validate_bban=True),
+            lambda: IBAN(t, allow_invalid=True).validate(), lambda: IBAN(t, allow_invalid=True).validate(validate_bban=True),
+            lambda: IBAN(t, allow_invalid=True).is_valid, lambda: IBAN(IBAN(t, allow_invalid=True)),
+            lambda: IBAN(IBAN(t, allow_invalid=True), validate_bban=True))
+    got = [_accepts(f) for f in ways]
+    if got[0] != got[2] or got[0] != got[4] or got[0] != got[5] or got[1] != got[3] or got[1] != got[6]:
+        return "ENTRY-POINTS-DISAGREE " + "".join("1" if g else "0" for g in got)
+    return "1" if any(got) else "0"
+
+
+def f_spec_bic_accept_any(a):
+    """'1' when any entry point accepts the text in the given compliance mode (constructor, validate() on the
+    unvalidated object, the constructor handed an instance that was validated in the lenient mode or not at all)"""
+    t, strict = dec(a[0]), b(a[1])
+
+    def via_instance():
+        try:
+            inst = BIC(t)
+        except Exception:  # noqa: BLE001
+            inst = BIC(t, allow_invalid=True)
+        return BIC(inst, enforce_swift_compliance=strict)
+    ways = (lambda: BIC(t, enforce_swift_compliance=strict),
+            lambda: BIC(t, allow_invalid=True).validate(enforce_swift_compliance=strict), via_instance)
+    got = [_accepts(f) for f in ways]
+    if len(set(got)) != 1:
+        return "ENTRY-POINTS-DISAGREE " + "".join("1" if g else "0" for g in got)
+    return "1" if got[0] else "0"
+
+
 def f_spec_bic_accept(a):
     try:
         BIC(dec(a[0]), enforce_swift_compliance=b(a[1]))
@@ -274,6 +376,26 @@ def f_bic_formatted_rt(a):
 def f_iban_decomp(a):
     o = IBAN(dec(a[0]), allow_invalid=True)
     names = decl(a[1])
+    parts = [enc(o.country_code), enc(o.checksum_digits), enc(str(o.bban))]
+    for n in names:
+        def both(n=n):
+            x, y = getattr(o, n), getattr(o.bban, n)
+            if x != y:
+                raise AssertionError("IBAN/BBAN accessor disagree")
+            return enc(x)
+        parts.append(guard(both))
+    parts.append(guard(lambda: enc(str(IBAN.from_bban(o.country_code, o.bban, allow_invalid=True)))))
+    return " / ".join(parts)
+
+
+def f_iban_decomp_bbanobj(a):
+    """IBAN.from_bban(cc, <BBAN object of country cc2>): the result decomposes by cc's published positions"""
+    cc, cc2, bb = dec(a[0]), dec(a[1]), dec(a[2])
+    try:
+        o = IBAN.from_bban(cc, BBAN(cc2, bb), allow_invalid=True)
+    except Exception as e:  # noqa: BLE001
+        return canon_exc(e)
+    names = decl(a[3])
     parts = [enc(o.country_code), enc(o.checksum_digits), enc(str(o.bban))]
     for n in names:
         def both(n=n):
@@ -422,6 +544,12 @@ def f_validate_national(a):
 def f_from_components(a):
     return guard(lambda: enc(str(BBAN.from_components(dec(a[0]), bank_code=dec(a[1]), branch_code=dec(a[2]),
                                                       account_code=dec(a[3])))))
+
+
+def f_from_components_partial(a):
+    """from_components with the empty components OMITTED (same meaning as passing "")"""
+    vals = {k: dec(v) for k, v in (("bank_code", a[1]), ("branch_code", a[2]), ("account_code", a[3])) if dec(v) != ""}
+    return guard(lambda: enc(str(BBAN.from_components(dec(a[0]), **vals))))
 
 
 def f_generate(a):
@@ -829,6 +957,28 @@ def _verdict(make, make_unvalidated):
     if iv is not (res == "ACCEPT") and not res.startswith("CRASH"):
         return f"INCONSISTENT is_valid={iv} constructor={res}"
     return res
+
+
+def f_spec_no_foreign_exception(a):
+    """C05 on every IBAN entry point, with and without the national step: whatever escapes is a SchwiftyException, and
+    is_valid never raises"""
+    t = dec(a[0])
+    ways = (("IBAN(t)", lambda: IBAN(t)), ("IBAN(t, validate_bban=True)", lambda: IBAN(t, validate_bban=True)),
+            ("validate()", lambda: IBAN(t, allow_invalid=True).validate()),
+            ("validate(validate_bban=True)", lambda: IBAN(t, allow_invalid=True).validate(validate_bban=True)),
+            ("IBAN(t, allow_invalid=True, validate_bban=True)", lambda: IBAN(t, allow_invalid=True, validate_bban=True)))
+    for name, f in ways:
+        try:
+            f()
+        except exceptions.SchwiftyException:
+            pass
+        except Exception as e:  # noqa: BLE001
+            return f"ESCAPED {type(e).__name__} from {name}"
+    try:
+        IBAN(t, allow_invalid=True).is_valid
+    except Exception as e:  # noqa: BLE001
+        return f"ESCAPED {type(e).__name__} from is_valid"
+    return "OK"
 
 
 def f_spec_iban_verdict(a):
